@@ -26,6 +26,7 @@ from liquid.token import TOKEN_TAG
 from liquid.token import TOKEN_WITH
 from liquid.token import TOKEN_WORD
 from liquid.token import Token
+from liquid.limits import to_str
 
 if TYPE_CHECKING:
     from liquid.context import RenderContext
@@ -71,7 +72,7 @@ class IncludeNode(Node):
 
         try:
             template = context.env.get_template(
-                str(name), context=context, tag=self.tag
+                to_str(name), context=context, tag=self.tag
             )
         except TemplateNotFoundError as err:
             err.token = self.name.token
@@ -122,7 +123,7 @@ class IncludeNode(Node):
 
         try:
             template = await context.env.get_template_async(
-                str(name), context=context, tag=self.tag
+                to_str(name), context=context, tag=self.tag
             )
         except TemplateNotFoundError as err:
             err.token = self.name.token
@@ -163,7 +164,7 @@ class IncludeNode(Node):
             name = self.name.evaluate(static_context)
             try:
                 template = static_context.env.get_template(
-                    str(name), context=static_context, tag=self.tag
+                    to_str(name), context=static_context, tag=self.tag
                 )
                 yield from template.nodes
             except TemplateNotFoundError as err:
@@ -179,7 +180,7 @@ class IncludeNode(Node):
             name = await self.name.evaluate_async(static_context)
             try:
                 template = await static_context.env.get_template_async(
-                    str(name), context=static_context, tag=self.tag
+                    to_str(name), context=static_context, tag=self.tag
                 )
                 return template.nodes
             except TemplateNotFoundError as err:
